@@ -244,6 +244,8 @@ theorem publish_ok (fs : Fs) (gd : Good fs) (dp name v : Nat) (pkg : Pkg)
     dp = name ∧ (∀ w ∈ releasesOf fs name, w < v)
     ∧ relListed (exec Impl.repaired fs (.publish dp name v pkg)).fs name v = true
     ∧ pkg.placedAs (vis (exec Impl.repaired fs (.publish dp name v pkg)).fs (packageP name v))
+    ∧ (∀ ms, pkg = .dir ms → (ms.map (·.1)).Nodup → ∀ m ∈ ms,
+        vis (exec Impl.repaired fs (.publish dp name v pkg)).fs (packageP name v ++ [.member m.1]) = some (.file m.2))
     ∧ (∀ key, ¬ (releaseP name v <+: key) →
         vis (exec Impl.repaired fs (.publish dp name v pkg)).fs key = vis fs key) := by
   cases hg : publishGuard Impl.repaired fs dp name v with
@@ -269,7 +271,13 @@ theorem publish_ok (fs : Fs) (gd : Good fs) (dp name v : Nat) (pkg : Pkg)
         | file b => simp only at hpkg; simp [hpkg]
         | dir ms => simp only at hpkg; simp [hpkg]
       have hrl : relListed x name v = true := by simp [relListed, isDir, hproj, hrel, hsome]
-      refine ⟨hdp, hmono, hrl, ?_, vis_frame_pub x fs name v gd.wf hpf⟩
+      refine ⟨hdp, hmono, hrl, ?_, ?_, vis_frame_pub x fs name v gd.wf hpf⟩
+      rotate_left
+      · intro ms hms hnd m hm
+        subst hms
+        have := push_members true fs x name v ms hr hnd m hm
+        simp only [vis, packageP, List.cons_append, List.nil_append, hrl, if_true]
+        simpa [packageP] using this
       cases pkg with
       | file b => simp only at hpkg; simp [Pkg.placedAs, vis, packageP, hrl]; simpa [packageP] using hpkg
       | dir ms => simp only at hpkg; simp [Pkg.placedAs, vis, packageP, hrl]; simpa [packageP] using hpkg
@@ -329,7 +337,7 @@ theorem apply_append_only (fs : Fs) (gd : Good fs) (ev : Ev) (key : Path) (n : N
         intro hk; rw [vis_hidden_gen fs p v _ ht0 key hk] at hvis; cases hvis
       rw [hframe key hkey]; exact hvis
     | publish dp name v pkg =>
-      obtain ⟨_, hmono, _, _, hframe⟩ := publish_ok fs gd dp name v pkg he
+      obtain ⟨_, hmono, _, _, _, hframe⟩ := publish_ok fs gd dp name v pkg he
       have hnl : relListed fs name v = false := by
         cases hl : relListed fs name v with
         | false => rfl
